@@ -549,6 +549,14 @@ def run(ctx):
     for fn_, what_, node_ in early:
         ctx.violation("A6", fn_, "selection-before-upgrade", "%s computes the usable mechanisms before the TLS upgrade" % what_,
                       node=node_, witness="the SASL mechanism is chosen from the capabilities announced before the handshake")
+    try:
+        from .c16 import selection_twice
+        twice = selection_twice(ctx, R, auth)
+    except RecursionError:
+        twice = None
+    if twice:
+        ctx.violation("A6", auth, "selection-reuses-pre-tls-choice", twice, node=auth.node,
+                      witness="connect(starttls=True, debug=True) against a server whose SASL list differs before and after STARTTLS")
     if reads_live:
         ctx.holds("A6", "%s reads the capability map at selection time" % auth.qualname)
     else:
@@ -628,8 +636,18 @@ def a3(ctx, R):
             kind = "fact"
             pol = True
             info = None
-        if isinstance(val, ast.Call):
-            _F.expr = val
+        val_ = val
+        if isinstance(val_, ast.Name) and val_.id not in f.params:
+            # the verdict held in a local first: `ok = auth_method(...)` ... `self.authenticated = ok`
+            dv_ = single_def_value(f, val_.id)
+            if isinstance(dv_, ast.Call):
+                val_ = dv_
+            elif isinstance(dv_, ast.Call) is False and dv_ is not None and isinstance(dv_, ast.Compare) is False:
+                pass
+        while isinstance(val_, ast.Call) and isinstance(val_.func, ast.Name) and val_.func.id == "bool" and len(val_.args) == 1:
+            val_ = val_.args[0]  # bool(x) says what `if x` would
+        if isinstance(val_, ast.Call):
+            _F.expr = val_
             if mech_success(_F):
                 ctx.holds("A3", "%s: %s" % (f.qualname, norm(st)[:70]), "the flag takes the mechanism's own verdict")
                 continue
